@@ -13,6 +13,7 @@ import (
 	"sort"
 	"strings"
 	"testing"
+	"unicode"
 
 	"go.lsp.dev/protocol"
 	"pgregory.net/rapid"
@@ -105,6 +106,17 @@ func applyDamageOpt(lines []string, ops []DamageOp, orphan bool) []string {
 	}
 	// the entry must still begin at column 0 (an indented first line would legitimately
 	// belong to the entry before it) and must not become empty
+	// a damaged include line whose glob would now leave the document's directory (the server trims
+	// blanks of every kind in front of the path, so "sub/**" with "sub" overwritten is "/**") walks
+	// the file system: the open finding C06-F2, not what is examined here
+	for i, l := range out {
+		if wideGlobAfterDamage(l) {
+			out[i] = "inklude" + l[len("include"):]
+			if onWideGlobDamage != nil {
+				onWideGlobDamage()
+			}
+		}
+	}
 	if orphan && len(out) > 0 {
 		return out
 	}
@@ -117,6 +129,25 @@ func applyDamageOpt(lines []string, ops []DamageOp, orphan bool) []string {
 		}
 	}
 	return out
+}
+
+var onWideGlobDamage func()
+
+func wideGlobAfterDamage(line string) bool {
+	if !strings.HasPrefix(line, "include") {
+		return false
+	}
+	rest := line[len("include"):]
+	if !strings.ContainsAny(rest, "*?[{<") {
+		return false
+	}
+	cleaned := strings.Map(func(r rune) rune {
+		if r <= ' ' || r == 0x7f || r == 0xfeff || unicode.IsSpace(r) || !unicode.IsPrint(r) || r == '"' || r == '\'' {
+			return -1
+		}
+		return r
+	}, rest)
+	return strings.HasPrefix(cleaned, "/") || strings.HasPrefix(cleaned, "~") || strings.Contains(cleaned, "..")
 }
 
 // rebase zeroes offsets and makes line numbers relative to base in any ast value.
@@ -434,6 +465,7 @@ var recC07 = ev.New("C07")
 
 func TestC07(t *testing.T) {
 	defer recC07.Flush()
+	onWideGlobDamage = func() { recC07.Excluded("include.wide-glob") }
 	sv := newSurvey()
 	if surveyOn() {
 		defer sv.print()
